@@ -21,7 +21,9 @@ Variable cv : cg_variant.
 Variable xv : ex_variant.
 Variable c : fchart.
 Hypothesis Htlf : cg_tlf_first_byte cv = false.
-Hypothesis H : wf_coreb c = true.
+(* ancestor lists are strictly ascending and inside the state table (every checked chart: wfb_anc) *)
+Hypothesis Hanc_sorted : forall i, ssorted (fs_ancestors (st c i)).
+Hypothesis Hanc_bounded : forall i, bounded (nstates c) (fs_ancestors (st c i)).
 Hypothesis Hc : chart_c c = true.
 Notation n := (nstates c).
 
@@ -147,7 +149,7 @@ Proof.
     by (unfold top_level_final; now rewrite Htlf).
   rewrite Etop. set (top := match fs_ancestors (st c i) with [0] => true | _ => false end).
   constructor; cbn [ca_cfg ca_tlf ca_x ea_cfg ea_tlf ea_x]; [reflexivity|now rewrite E2|].
-  rewrite (pardone_loop_c cfg1 (fs_ancestors (st c i)) _ (anc_sorted c H i) (anc_bounded c H i)).
+  rewrite (pardone_loop_c cfg1 (fs_ancestors (st c i)) _ (Hanc_sorted i) (Hanc_bounded i)).
   apply pardone_sim. destruct top; [exact R5|].
   destruct (fs_parent (st c i)); [now apply csim_done|exact R5].
 Qed.
